@@ -177,6 +177,7 @@ M = {
     "r01_release_fastpath": ("C01", [sub(F5, "        let i = self.or_rank_bits() as usize;\n\n        let hrv: HandRankValue = if self.is_flush() {", "        let i = self.or_rank_bits() as usize;\n        #[cfg(not(debug_assertions))]\n        if self.is_straight_flush() {\n            return (10 - (i.trailing_zeros() as u16), *self);\n        }\n\n        let hrv: HandRankValue = if self.is_flush() {")]),
     "r11_release_sort": ("C11", [sub(F5, "        self.0.sort_unstable();\n        self.0.reverse();", "        self.0.sort_unstable();\n        if cfg!(debug_assertions) {\n            self.0.reverse();\n        } else {\n            self.0.swap(0, 4);\n            self.0.swap(1, 3);\n            self.0.swap(0, 1);\n        }")]),
     "c11_sort_masked_cmp": ("C11", [sub(F5, "        self.0.sort_unstable();\n        self.0.reverse();", "        self.0.sort_by(|a, b| (b >> 8).cmp(&(a >> 8)));")]),
+    "l02_update_only_when_logging": ("C02", [sub("src/cards/six.rs", "                best_hrv = hrv;\n                best_hand = hand;", "                if log::log_enabled!(log::Level::Debug) {\n                    best_hrv = hrv;\n                }\n                best_hand = hand;")]),
     "p04_unique_any_consumes": ("C04", [sub("src/cards/seven.rs", "        let sorted = self.sort();\n        let mut last: CKCNumber = u32::MAX;\n        for c in sorted.iter() {\n            if *c >= last {\n                return false;\n            }\n            last = *c;\n        }\n        true", "        let mut rest = self.iter();\n        while let Some(card) = rest.next() {\n            if rest.any(|c| c == card) {\n                return false;\n            }\n        }\n        true")]),
 }
 
